@@ -133,6 +133,19 @@ def run_family(C, job):
             C.samples.append({'query': label, 'counterexample': vec['summary']['incoming'], 'native': res})
         else:
             raise Broken(f'{label}: selection model does not reproduce natively: native {res}, expected {want}: {vec["summary"]["incoming"]}')
+    else:
+        # model validation: one concrete event of this family through the native selection and the reference selection
+        okc = [c for c, kp, _ in sel_paths if kp == 'ok']
+        r2, m2 = C.solve(f'{label}: selection witness', base + list(E.axioms) + ([z3.Or(*okc)] if okc else []))
+        if r2 == 'sat':
+            vec = SPEC.concretise(w, m2, version); vec['op'] = 'c09:select'
+            res = C.native(vec)
+            C.model_validation += 1
+            want = expected_selection(vec, version)
+            got = sorted(res.get('pairs', [])) if res.get('r') == 'ok' else 'err'
+            if got != want:
+                raise Broken(f'{label}: selection witness disagrees natively: native {got}, reference {want}: {vec["summary"]["incoming"]}')
+            C.samples.append({'family': label, 'selection_witness': want})
     # ---------------- (b) read-set containment on the auth_check paths
     spec_ok, applicable = SPEC.accepts(w, version)
     f = E.find_func('event_auth::auth_check')
